@@ -2,16 +2,16 @@
    [Model.step] / [Model.notify] / [Model.accepted]: it is applied verbatim to the observations
    recorded from the implementation (Corr.v) and proved of the model (Proofs.v).
    Clause codes (100*step + code):
-     1 outcome class wrong (rejected value not refused with TraitError, accepted one refused, read of an Event not refused)
+     (1 and 8 are not used: the outcome class of the operation and the routing of handler exceptions to the
+        notification exception handler are not part of the statement; they are compared model-vs-implementation in Corr.v)
      2 a handler was called although the assignment does not count as a change (or more than once)
      3 a handler was called for a rejected assignment or for a read (first read of a default included)
      4 a handler was NOT called for an assignment that counts as a change
-     5 the stored value is wrong: a rejected assignment or a read changed it / an accepted assignment was undone
-       or stored something else than the validated value
+     5 an accepted assignment was undone or stored something else than the validated value
+       (the new value is not what is readable afterwards)
      6 reported old/new untruthful: old is not what was readable before, or new is not what is readable after
        (Event: old is not Undefined, new is not the validated value)
      7 the mechanisms disagree (different handlers saw different call sequences) although == / != are coherent
-     8 exception routing: the sink did not receive exactly the calls of the raising handlers
    Readings (DESIGN 6a): equality mode — identical => no change; == false and != true => change;
    == true and != false => no change; when a comparison raises or the two are incoherent the
    statement does not say: 0 or 1 call is accepted per handler; agreement between handlers (clause 7)
@@ -63,29 +63,19 @@ Section Law.
   Definition law_step (s : option val) (o : op) (ob : obs) : list Z :=
     let hs := e_handlers E in
     match o with
-    | Read =>
-        match e_kind E with
-        | TEvent => chk 1 (outcome_eqb (o_out ob) AttributeError) ++ chk 3 (is_nil (o_calls ob))
-                    ++ chk 5 (opt_val_eqb (o_slot ob) s) ++ chk 8 (is_nil (o_sink ob))
-        | TNormal _ => chk 1 (outcome_eqb (o_out ob) Ok) ++ chk 3 (is_nil (o_calls ob))
-                       ++ chk 5 (opt_val_eqb (o_slot ob) (Some (readable E s))) ++ chk 8 (is_nil (o_sink ob))
-        end
+    | Read => chk 3 (is_nil (o_calls ob))
     | Assign v =>
         match e_validate E v with
-        | None => chk 1 (outcome_eqb (o_out ob) TraitError) ++ chk 3 (is_nil (o_calls ob))
-                  ++ chk 5 (opt_val_eqb (o_slot ob) s) ++ chk 8 (is_nil (o_sink ob))
+        | None => chk 3 (is_nil (o_calls ob))
         | Some w =>
             let old := match e_kind E with TEvent => OUndefined | TNormal _ => OVal (readable E s) end in
             let '(lo, hi) := expected (readable E s) w in
             let per := map (fun h => calls_of (h_id h) (o_calls ob)) hs in
-            chk 1 (outcome_eqb (o_out ob) Ok)
-            ++ chk 2 (forallb (fun l => length l <=? hi) per)
+            chk 2 (forallb (fun l => length l <=? hi) per)
             ++ chk 4 (forallb (fun l => lo <=? length l) per)
             ++ chk 5 (opt_val_eqb (o_slot ob) (match e_kind E with TEvent => s | TNormal _ => Some w end))
             ++ chk 6 (forallb (fun c => oldv_eqb (snd (fst c)) old && (snd c =? w)) (o_calls ob))
             ++ chk 7 (negb (agreement_demanded (readable E s) w) || all_same_length per)
-            ++ chk 8 (list_eqb call_eqb (o_sink ob)
-                        (filter (fun c => existsb (fun h => (h_id h =? fst (fst c)) && h_raises h) hs) (o_calls ob)))
         end
     end.
 
